@@ -1,8 +1,80 @@
 (* C04 — Version comparison is the SemVer 2.0.0 total preorder on the documented grammar.
-   Property theorems only; each is closed by [exact] of a lemma proved elsewhere. *)
+   Property theorems only; each is closed by [exact] of a lemma proved elsewhere.
+   The model (compare, canonical, is_valid, sort, ...) is Semver/Model.v; the declarative
+   grammar (Version, render, numeral, val) and precedence (prec) are Semver/Spec.v.
+   All statements quantify over ALL byte strings (str = list Z), without length bounds. *)
+From Coq Require Import List ZArith.
 From Verif.Base Require Import Bytes.
-From Verif.Semver Require Import Model Proofs.
+From Verif.Semver Require Import Model Spec Proofs ProofsCompare.
+
+(* ---- 1. Compare is a total preorder ------------------------------------------------------ *)
 
 Theorem C04_compare_refl : forall v, compare v v = 0.
 Proof. exact compare_refl. Qed.
 Print Assumptions C04_compare_refl.
+
+Theorem C04_compare_total : forall v w, compare v w = -1 \/ compare v w = 0 \/ compare v w = 1.
+Proof. exact compare_total. Qed.
+Print Assumptions C04_compare_total.
+
+Theorem C04_compare_antisym : forall v w, compare w v = - compare v w.
+Proof. exact compare_antisym. Qed.
+Print Assumptions C04_compare_antisym.
+
+Theorem C04_compare_trans :
+  forall a b c, compare a b <= 0 -> compare b c <= 0 -> compare a c <= 0.
+Proof. exact compare_trans. Qed.
+Print Assumptions C04_compare_trans.
+
+Theorem C04_compare_eq_trans :
+  forall a b c, compare a b = 0 -> compare b c = 0 -> compare a c = 0.
+Proof. exact compare_eq_trans. Qed.
+Print Assumptions C04_compare_eq_trans.
+
+Theorem C04_compare_le_lt_trans :
+  forall a b c, compare a b <= 0 -> compare b c < 0 -> compare a c < 0.
+Proof. exact compare_le_lt_trans. Qed.
+Print Assumptions C04_compare_le_lt_trans.
+
+Theorem C04_compare_lt_le_trans :
+  forall a b c, compare a b < 0 -> compare b c <= 0 -> compare a c < 0.
+Proof. exact compare_lt_le_trans. Qed.
+Print Assumptions C04_compare_lt_le_trans.
+
+(* all invalid strings are equal, and below every valid one *)
+Theorem C04_compare_invalid :
+  forall v w,
+    (is_valid v = false -> is_valid w = false -> compare v w = 0) /\
+    (is_valid v = false -> is_valid w = true -> compare v w = -1 /\ compare w v = 1).
+Proof. exact compare_invalid. Qed.
+Print Assumptions C04_compare_invalid.
+
+(* compareInt on numerals is the comparison of the numbers they denote: any length *)
+Theorem C04_compare_int_numeric :
+  forall x y, numeral x = true -> numeral y = true ->
+              compare_int x y = Z_of_comparison (N.compare (val x) (val y)).
+Proof. exact compare_int_numeric. Qed.
+Print Assumptions C04_compare_int_numeric.
+
+(* non-vacuity: 2^64 and 2^64-1 are numerals, compared correctly *)
+Example C04_numeral_example :
+  numeral (B "18446744073709551616") = true /\ numeral (B "18446744073709551615") = true /\
+  val (B "18446744073709551616") = 18446744073709551616%N /\
+  compare_int (B "18446744073709551616") (B "18446744073709551615") = 1.
+Proof. repeat split; vm_compute; reflexivity. Qed.
+
+Example C04_invalid_example :
+  is_valid (B "v1.2") = true /\ is_valid (B "v1.02.3") = false /\ is_valid (B "1.2.3") = false.
+Proof. repeat split; vm_compute; reflexivity. Qed.
+
+(* ---- 2. Compare = 0 exactly for identical canonical forms ---------------------------------- *)
+
+Theorem C04_compare_zero_iff_canonical :
+  forall v w, compare v w = 0 <-> canonical v = canonical w.
+Proof. exact compare_zero_iff_canonical. Qed.
+Print Assumptions C04_compare_zero_iff_canonical.
+
+Example C04_canonical_example :
+  canonical (B "v1.2") = B "v1.2.0" /\ canonical (B "v1.2.0+meta") = B "v1.2.0" /\
+  compare (B "v1.2") (B "v1.2.0+meta") = 0 /\ compare (B "v1.2.0-0") (B "v1.2") = -1.
+Proof. repeat split; vm_compute; reflexivity. Qed.
